@@ -25,3 +25,7 @@ def run(prog, rep):
     r_safe.run_colidx(prog, rep)
     from ..rules import r_null as _rn
     _rn.run_cstr_args(prog, rep)
+    from ..rules import r_safe as _rs
+    _rs.run_stale_size(prog, rep)
+    from ..rules import r_err as _re
+    _re.run_exists(prog, rep)
